@@ -179,23 +179,21 @@ theorem C09_op_iff (op : SOp) (env : SymTab) (asm : Bool) :
         have hkm : k ∈ Sig.params op.cls := (List.of_mem_zip hm').1
         rw [checkArg_iff k (hk k hkm) t' env]
         exact h k t' hm'
-    have ho : opcodeErrors op asm = [] ↔
+    have ho : opcodeErrors op env asm = [] ↔
         (if op.cls = .OPCODE then
-          match op.toks with
-          | [.int v] => asm || (match Enc.disassemble v false with | .ok _ => true | .error _ => false)
-          | _ => true
+          match opcodeWord op.toks env with
+          | some v => asm || (match Enc.disassemble v false with | .ok _ => true | .error _ => false)
+          | none => true
          else true) = true := by
       unfold opcodeErrors
       by_cases hc : op.cls = .OPCODE
       · simp only [hc, ↓reduceIte]
-        split
-        · rename_i v heq
+        cases hv : opcodeWord op.toks env with
+        | none => simp
+        | some v =>
           cases asm with
-          | true =>
-            cases hd : Enc.disassemble v true <;> simp [heq, hd]
-          | false =>
-            cases hd : Enc.disassemble v false <;> simp [heq, hd]
-        · simp
+          | true => cases hd : Enc.disassemble v true <;> simp [hd]
+          | false => cases hd : Enc.disassemble v false <;> simp [hd]
       · simp [hc]
     rw [ha, hcl, ho]
     constructor
